@@ -23,6 +23,10 @@ TRUSTED_BASE = [
 ]
 
 
+class ToolFailure(RuntimeError):
+    """the verification tooling itself failed (lake / lean driver / time-out): exit code 2, never a verdict"""
+
+
 class Lock:
     def __init__(self, name='lake'):
         os.makedirs(os.path.join(LEAN, '.lake'), exist_ok=True)
@@ -250,7 +254,7 @@ def run_driver(driver, stdin_text, timeout=1200):
         rc, out, dt = run(['lake', 'env', 'lean', '--run', f'drivers/{driver}.lean'], cwd=LEAN, timeout=timeout, input=stdin_text)
     lines = [l for l in out.split('\n') if l and not l.startswith('drivers/') and 'warning' not in l]
     if rc != 0:
-        raise RuntimeError(f'driver {driver} failed (rc={rc}): {out[-800:]}')
+        raise ToolFailure(f'driver {driver} failed (rc={rc}): {out[-800:]}')
     return lines, dt
 
 
